@@ -674,3 +674,60 @@ Proof.
     split; [exact Hfe2|]. split; [exact Hout2|].
     subst t1 b1. cbn. repeat split; reflexivity.
 Qed.
+
+(* jls_track_update on a track whose HEAD chunk exists *)
+Lemma rf_track_update : forall b sid t level pos,
+  rf_bok b -> rf_tok (wm_b_raw b) t ->
+  let b' := fst (wm_track_update b sid t level pos) in
+  let t' := snd (wm_track_update b sid t level pos) in
+  rf_bok b' /\ rf_tok (wm_b_raw b') t' /\ wm_fend (wm_b_raw b') = wm_fend (wm_b_raw b) /\
+  rp_out (rf_scan (wm_rlog (wm_b_raw b'))) = rp_out (rf_scan (wm_rlog (wm_b_raw b))) /\
+  wm_disk (wm_b_raw b') = wm_disk (wm_b_raw b) /\
+  wm_tk_offsets t' = (if wm_get_off (wm_tk_offsets t) level =? 0 then wm_upd (N.to_nat level) pos (wm_tk_offsets t) else wm_tk_offsets t) /\
+  wm_tk_data_head t' = wm_tk_data_head t /\ wm_tk_index_head t' = wm_tk_index_head t /\ wm_tk_summary_head t' = wm_tk_summary_head t /\
+  wm_tk_head t' = wm_tk_head t /\ wm_tk_type t' = wm_tk_type t /\
+  wm_b_source_head b' = wm_b_source_head b /\ wm_b_signal_head b' = wm_b_signal_head b /\ wm_b_ud_head b' = wm_b_ud_head b.
+Proof.
+  intros b sid t level pos Hb Ht b' t'. subst b' t'. unfold wm_track_update.
+  destruct (N.eqb_spec (wm_get_off (wm_tk_offsets t) level) 0) as [E0|En0].
+  - pose proof Ht as (A & B & C & D & E & F & G & H).
+    assert (Ht1 : rf_tok (wm_b_raw b) (wm_tk_set_offsets t (wm_upd (N.to_nat level) pos (wm_tk_offsets t)))).
+    { unfold rf_tok. cbn [wm_tk_set_offsets wm_tk_data_head wm_tk_index_head wm_tk_summary_head wm_tk_offsets wm_tk_type wm_tk_head].
+      split; [exact A|]. split; [exact B|]. split; [exact C|]. split; [rewrite rf_upd_length; exact D|].
+      split; [exact E|]. split; [exact F|]. split; [exact G|exact H]. }
+    destruct (rf_track_wr_head_rewrite b sid _ Hb Ht1) as (Hs & Hb' & Hfe' & Hout' & Hd' & Hh1 & Hh2 & Hh3).
+    rewrite Hs. split; [exact Hb'|].
+    split. { eapply rf_tok_ext; [|exact Ht1]. eapply rf_ext_of with (new := []); [lia|rewrite Hd'; apply incl_refl|exact Hout']. }
+    split; [exact Hfe'|]. split; [exact Hout'|]. split; [exact Hd'|].
+    cbn [wm_tk_set_offsets wm_tk_data_head wm_tk_index_head wm_tk_summary_head wm_tk_offsets wm_tk_type wm_tk_head].
+    repeat split; assumption.
+  - cbn [fst snd]. split; [exact Hb|]. split; [exact Ht|]. repeat split; reflexivity.
+Qed.
+
+(* a chunk appended to one of the three global lists (source / signal / user data) *)
+Lemma rf_base_append : forall b head prev tag meta payload,
+  rf_bok b -> rf_ref (wm_b_raw b) head ->
+  tag <> JLS_TAG_INVALID -> tag < 256 -> meta < 65536 -> rf_len payload < 4294967296 ->
+  let r := wm_b_raw b in
+  let off := wm_raw_chunk_tell r in
+  let h := wm_mk_hdr prev tag meta (rf_len payload) in
+  let r1 := fst (wm_raw_wr r h payload) in
+  let h1 := snd (wm_raw_wr r h payload) in
+  let r2 := fst (wm_update_item_head r1 head {| wm_ck_offset := off; wm_ck_hdr := h1 |}) in
+  let c := snd (wm_update_item_head r1 head {| wm_ck_offset := off; wm_ck_hdr := h1 |}) in
+  rf_rok r2 /\ rf_ext r r2 /\ off = wm_fend r /\
+  rp_out (rf_scan (wm_rlog r2)) = {| rc_off := off; rc_tag := tag; rc_meta := meta; rc_pay := payload |} :: rp_out (rf_scan (wm_rlog r)) /\
+  rf_ref r2 c /\ wm_ck_offset c = off /\ fm_payload_length (wm_ck_hdr c) = rf_len payload /\
+  In (wm_ck_offset c, wm_ck_hdr c) (wm_disk r2) /\
+  rf_ref r2 (wm_b_source_head b) /\ rf_ref r2 (wm_b_signal_head b) /\ rf_ref r2 (wm_b_ud_head b).
+Proof.
+  intros b head prev tag meta payload (Hr & H1 & H2 & H3) Href Htag Ht Hm Hlen r off h r1 h1 r2 c.
+  pose proof (rf_append_link r head prev tag meta payload Hr Href Htag Ht Hm Hlen) as X. cbv zeta in X.
+  fold off h r1 h1 r2 in X. destruct X as (Hr2 & Hoff & Hfe2 & Hout2 & Hnh & Hin2 & Hpl2 & Hi2). fold c in Hnh.
+  assert (Hext : rf_ext r r2).
+  { eapply rf_ext_of with (new := [_]); [pose proof (rf_chunk_size_pos (rf_len payload)); lia|exact Hi2|exact Hout2]. }
+  split; [exact Hr2|]. split; [exact Hext|]. split; [exact Hoff|]. split; [exact Hout2|].
+  rewrite Hnh. cbn [wm_ck_offset wm_ck_hdr].
+  split; [right; exact Hin2|]. split; [reflexivity|]. split; [exact Hpl2|]. split; [exact Hin2|].
+  split; [eapply rf_ref_ext; eauto|]. split; eapply rf_ref_ext; eauto.
+Qed.
